@@ -105,7 +105,7 @@ theorem c13_calls_active_partial (P : Prog) (env : Nat → Nat) (hNX : NoFixpoin
     (hs0 : ¬ HeadOn s0 → s0.cache = [] ∧ s0.prov = [])
     (fuel stamp : Nat) (s : St) (v : Nat) (hs : List Nat) (s' : St)
     (hI : InvF P env s) (hst : s.stack = j :: s0.stack) (hE0 : Ext s0 s)
-    (h : executeMaybeIterate P env read j fuel stamp s = .ok (v, hs, s'))
+    (h : executeMaybeIterate P env read j false fuel stamp s = .ok (v, hs, s'))
     (c : Nat) (hc : c ∈ callees env (P.node j).body) (hact : c ∈ s.stack)
     (fv : Nat) (hstr : (P.node j).strat = .fallback fv) : v = fv % 256 :=
   (loop_specF P env hNX hR j s0 hs0 fuel stamp s v hs s' hI hst hE0 h).2.2.2.2.2.2
